@@ -8,6 +8,8 @@ Line protocol:
   `wf <script>`                    → `<storeLast> <allChecked> <allGuarded> <commits>`
   `errclass <handler|raw> <kind>`  → `pairing|connection|other` (the error_handler mapping)
   `runpin <script> <expected> <typed>` → as `run`, the fault derived from the two PIN values
+  `dmapseq <op,op,...>`  ops `p<n>` pin(n) | `r<n>` request with the code of PIN n | `rx` request with a
+       code of no PIN | `f` finish  → `<paired> <stored> <answer bits of the requests|->`
   `runinit <script> <idx|-> <kind|-> <a> <b>` → `<outcome> <svc> <settings> <paired>` with the
        credential VALUES held afterwards (0 none, 1 A, 2 B, 9 freshly paired) from initial (a, b)
 -/
@@ -58,6 +60,19 @@ def handle (_ : Unit) (ws : List String) : Unit × String :=
          ((), s!"{r.1.toStr} {c.1.toStr} {c.2.toStr} {b01 r.2.paired}")
        | none => ((), "bad-op"))
     | _, _, _ => ((), "bad-op")
+  | ["dmapseq", ops] =>
+    let parse (w : String) : Option DOp :=
+      if w == "f" then some DOp.finish
+      else if w == "rx" then some (DOp.request none)
+      else if w.startsWith "p" then (w.drop 1).toNat?.map DOp.pin
+      else if w.startsWith "r" then (w.drop 1).toNat?.map (fun n => DOp.request (some n))
+      else none
+    match (ops.splitOn ",").mapM parse with
+    | some l =>
+      let st := drun l
+      let bits := (answers DSt.init l).map b01
+      ((), s!"{b01 st.paired} {b01 st.stored} {if bits.isEmpty then "-" else String.join bits}")
+    | none => ((), "bad-op")
   | ["runpin", name, e, t] =>
     match script? name, e.toNat?, t.toNat? with
     | some s, some e, some t => ((), showRun (runPins s e t))
